@@ -237,6 +237,7 @@ package vanguard
 //@ axiom io.EOF != nil && io.ErrUnexpectedEOF != nil && !errIs(io.ErrUnexpectedEOF, io.EOF)
 
 //@ func (*responseWriter).flushHeaders
+//@   atcall[C03,C11] (net/http.ResponseWriter).WriteHeader: !(w.buf != nil && !(w.respMeta.end != nil && w.respMeta.end.err != nil)) ==> hdr(uf("hdrOf", w.delegate), "Content-Length") == ""
 //@   dispatch (io.Writer).Write: none
 //@   requires validRW(w) && (w.headersFlushed || (w.respMeta != nil && !w.endWritten))
 //@   requires (w.buf != nil ==> !w.headersFlushed) && (w.endWritten ==> w.err != nil)
@@ -364,7 +365,7 @@ package vanguard
 //@   requires w.current != nil && w.initialized
 //@   requires w.rw.op.serverEnveloper != nil
 //@   step rwStep(w.rw)
-//@   ensures[C09,C03] err == nil ==> w.rw.endWritten && w.err != nil
+//@   ensures[C09,C03,C11] err == nil ==> w.rw.endWritten && w.err != nil
 //@   ensures validEW(w) && w.rw == old(w.rw) && w.initialized && (old(w.rw.endWritten) ==> w.rw.endWritten)
 //@   ensures relInv(w)
 //@   modifies w.mustReleaseCurrent, w.err, owned(unbox(w.current, *bytes.Buffer)), owned(w.rw.buf), #RWB
@@ -385,7 +386,7 @@ package vanguard
 //@   loop 1 invariant[C08] written >= 0 && written + len(data) == len(old(data))
 //@   loop 1 invariant[C16] w.err == nil ==> ite(w.writingEnvelope, 0, 1) + flushes == envs + ite(ite(old(w.initialized), !old(w.writingEnvelope), old(w.rw.op.serverEnveloper) == nil), 1, 0)
 //@   loop 1 invariant ewInv(w) && w.initialized && w.remainingBytes != -1 && w.rw == old(w.rw) && rwStep(w.rw)
-//@   loop 1 decreases len(data), ite(w.writingEnvelope, 0, 1), ite(w.err == nil, 1, 0)
+//@   loop 1 decreases[C11,C08] len(data), ite(w.writingEnvelope, 0, 1), ite(w.err == nil, 1, 0)
 
 //@ func (*envelopingWriter).Close
 //@   atcall[C03] (io.Writer).Write: !w.rw.endWritten
@@ -544,7 +545,7 @@ package vanguard
 //@   loop 1 invariant twInv(w) && (w.err == nil ==> w.buffer != nil && w.expectingBytes != -1) && w.rw == old(w.rw) && rwStep(w.rw)
 //@   loop 1 invariant[C03] old(w.rw.endWritten) ==> len(data) == 0 && (w.err == nil ==> blen(w.buffer) < w.expectingBytes)
 //@   loop 1 invariant[C03] !old(w.rw.endWritten) && w.err == nil ==> !w.rw.endWritten
-//@   loop 1 decreases len(data), ite(w.writingEnvelope, 0, 1), ite(w.err == nil, 1, 0)
+//@   loop 1 decreases[C11,C08] len(data), ite(w.writingEnvelope, 0, 1), ite(w.err == nil, 1, 0)
 
 //@ func (*transformingWriter).Close
 //@   ensures[C09] old(w.expectingBytes) == -1 && old(w.buffer) != nil && w.rw.contentLen >= 0 && old(blen(w.buffer)) != w.rw.contentLen ==> w.rw.endWritten
